@@ -1,9 +1,11 @@
 #!/bin/bash
 # tools/mtest.sh <mutant-worktree> <prop> [<prop>…] — run checks of a COPY of /verif against a mutated copy of the library
-# (development aid: leaves /repo and /verif untouched so that other runs are not disturbed)
+# (development aid: leaves /repo and /verif untouched so that other runs are not disturbed; one scratch copy per first property,
+# so that several invocations for different properties can run concurrently)
 W="$1"; shift
-rsync -a --delete --exclude .git --exclude evidence --exclude replays /verif/ /tmp/vtest/
-cd /tmp/vtest
+VT=/tmp/vtest_$1
+rsync -a --delete --exclude .git --exclude evidence --exclude replays /verif/ $VT/
+cd $VT
 for p in "$@"; do
-  SPECKIT_REPO="$W" PYTHONPATH="$W" NUMBA_CACHE_DIR=/tmp/vtest/.cache/numba-$(basename $W) ./check "$p" 2>&1 | grep -v "^WARNING conda" | tail -${TAILN:-6}
+  SPECKIT_REPO="$W" PYTHONPATH="$W" NUMBA_CACHE_DIR=$VT/.cache/numba-$(basename $W) ./check "$p" 2>&1 | grep -v "^WARNING conda" | tail -${TAILN:-6}
 done
